@@ -25,6 +25,8 @@ pub enum Broken {
     DeletedBetween,
     MixedCsum,
     TwentyFragments,
+    /// one ordinal byte has bit 5 set (33..63: no such fragment exists)
+    HighOrdinal,
 }
 
 #[derive(Clone, Debug, Serialize, Deserialize, PartialEq)]
@@ -91,7 +93,28 @@ fn expected_name(frags_name_order: &[[u16; 13]]) -> String {
 
 /// Build the slots of one directory plus the expectation for every non-LFN,
 /// non-deleted slot in order.
+fn upper11(n: &[u8; 11]) -> [u8; 11] {
+    let mut o = *n;
+    for b in o.iter_mut() {
+        *b = names::latin1_upper(*b);
+    }
+    o
+}
+
 pub fn build_items(items: &[Item], fat32: bool, lfn_cap: usize) -> (Vec<Slot>, Vec<Expect>) {
+    // short names are upper case (older corpus files carry lower-case ISO-8859-1 letters)
+    let items: Vec<Item> = items
+        .iter()
+        .cloned()
+        .map(|mut it| {
+            match &mut it {
+                Item::Short { name, .. } | Item::LfnGood { name, .. } | Item::LfnBroken { name, .. } | Item::CsumTwin { name } => *name = upper11(name),
+                _ => {}
+            }
+            it
+        })
+        .collect();
+    let items = &items[..];
     let mut slots: Vec<Slot> = Vec::new();
     let mut exp: Vec<Expect> = Vec::new();
     let t = times0();
@@ -136,7 +159,7 @@ pub fn build_items(items: &[Item], fat32: bool, lfn_cap: usize) -> (Vec<Slot>, V
                     pre.push(lfn_slot(ord, &frags[i], csum));
                 }
                 let s = expected_name(&frags);
-                let e = if n >= 20 {
+                let e = if n > 20 {
                     Expect::DontCare
                 } else if s.len() <= lfn_cap {
                     Expect::Name(s)
@@ -208,12 +231,17 @@ pub fn build_items(items: &[Item], fat32: bool, lfn_cap: usize) -> (Vec<Slot>, V
                         }
                     }
                     Broken::DeletedBetween => {
+                        // the entry that follows the run is the deleted one; the live entry
+                        // behind it has no run of its own
                         let mut r = [0u8; 32];
                         r[0] = 0xE5;
                         r[1..11].copy_from_slice(b"ELETED  TX");
                         r[11] = 0x20;
                         between.push(r);
-                        e = Expect::DontCare;
+                    }
+                    Broken::HighOrdinal => {
+                        let k = (frags[0][1] as usize ^ name[1] as usize) % n;
+                        run[k].0 |= 0x20;
                     }
                     Broken::MixedCsum => {
                         // one fragment of the run carries a different checksum: whichever it is, the
@@ -226,7 +254,9 @@ pub fn build_items(items: &[Item], fat32: bool, lfn_cap: usize) -> (Vec<Slot>, V
                         }
                     }
                     Broken::TwentyFragments => {
-                        e = Expect::DontCare;
+                        // 20 fragments (up to 255 characters) is the longest legal name
+                        let s = expected_name(&frags);
+                        e = if s.len() <= lfn_cap { Expect::Name(s) } else { Expect::DontCare };
                     }
                 }
                 let mut pre: Vec<Raw32> = run.iter().map(|(o, f, c)| lfn_slot(*o, f, *c)).collect();
@@ -856,6 +886,7 @@ fn broken_kind() -> impl Strategy<Value = Broken> {
         Just(Broken::DeletedBetween),
         Just(Broken::MixedCsum),
         Just(Broken::TwentyFragments),
+        Just(Broken::HighOrdinal),
     ]
 }
 
